@@ -66,9 +66,9 @@ PROP = {
     'C13': dict(engines=[], fresh=False, gen=True),
     'C14': dict(engines=['wire'], fresh=True),
     'C15': dict(engines=['rt'], fresh=False),
-    'C16': dict(engines=['anyu'], fresh=False),
+    'C16': dict(engines=['anyu'], fresh=True),
     'C17': dict(engines=['timep'], fresh=False),
-    'C18': dict(engines=['rapidp'], fresh=False),
+    'C18': dict(engines=['rapidp'], fresh=True),
     'C19': dict(engines=['api'], fresh=True),
 }
 
@@ -433,6 +433,11 @@ RULES['C06'] = 'hostile inputs per type in 8 classes (random bytes, byte-mutated
 
 RULES['C07'] = 'encodings (with unknown records, bytes/string in every position) placed in mmap pages flush against a PROT_NONE guard page; pages are read-only during Unmarshal, overwritten and unmapped afterwards while the message is fingerprinted and re-marshalled; struct fingerprints (incl. nil-vs-empty, sizeCache, oneof wrapper) around 17 read-only operations, also on structs with empty-but-allocated containers; Marshal outputs of 6 entry points scribbled / message byte slices flipped; non-trivial = non-empty input; distinct by type+input'
 
+RULES['C15'] = 'Sov/Soz: EXHAUSTIVE over every x in [0,2^32) as low word, as x<<32 and x<<32|0xffffffff, plus all 64 bit-length boundaries +-2, against protowire; EncodeVarint: boundaries at offsets 10..20 and a stride sample (quick) / full 32-bit range (thorough) with canary bytes on both sides; Skip: seeded well-formed records (all wire types, groups nested to depth 64) with and without tails, mutated records, random bytes and adversarial lengths, against protowire.ConsumeField; distinct by value / input'
+RULES['C16'] = 'seeded values of every subject type packed with New / MarshalFrom(Deterministic) / the deprecated any alias, unpacked through the default registry, through an empty type registry (file-registry + dynamicpb path) and through a custom file registry; hostile Any values (URLs naming enums, enum values, services, methods, fields, oneofs, nothing, garbage, host-prefixed; corrupt values) under 4 resolver configurations; failed packs with sentinel destinations; distinct by type+value / url+resolver'
+RULES['C17'] = 'Add/AddStd/Compare vs math/big nanosecond arithmetic: exhaustive grid over carry/borrow boundary values of nanos x sign combinations x range extremes, seeded random valid (t,d) pairs, an overflow class with arbitrary int64 seconds; Compare on all pairs of a pool incl. equal and adjacent instants + transitivity triples; non-trivial = non-zero duration / distinct pool elements'
+RULES['C18'] = 'rapidproto.MessageGenerator draws (rapid Example with seeded seeds) for every subject type and a dynamicpb twin under the 16 combinations of NoEmptyLists / DisallowNilMessages / a string field mapper / Any type URLs; every drawn message is walked by reflection (UTF-8, Timestamp/Duration validity, Any resolvable+decodable, FieldMask paths, declared enum numbers, option obligations) and round-tripped through the reference codec; distinct by type+options+seed'
+
 ASSUME = [
     'google.golang.org/protobuf v1.34.0 dynamicpb + proto (reflection codec) is the reference; it and the harness spec codec must agree before a case is decided',
     'the plain-Go-reflection struct reader (struct tags -> field numbers) reads generated structs correctly',
@@ -440,7 +445,7 @@ ASSUME = [
 ]
 
 
-FLOORS = {'C07': (500, 200), 'C01': (500, 200), 'C02': (500, 200), 'C04': (500, 200), 'C05': (100, 30), 'C03': (500, 200), 'C14': (500, 100)}
+FLOORS = {'C15': (1000000, 100000), 'C16': (500, 200), 'C17': (10000, 5000), 'C18': (300, 200), 'C07': (500, 200), 'C01': (500, 200), 'C02': (500, 200), 'C04': (500, 200), 'C05': (100, 30), 'C03': (500, 200), 'C14': (500, 100)}
 
 
 def check_engine(prop, tier, seed, repo, keep):
@@ -511,52 +516,54 @@ def run_isolated(w, binary, engine, shard, shards, args, timeout, tag, stall=25)
     return None, dict(rc=rc, progress=read_progress(pg), log=head, timed_out=timed_out)
 
 
+def run_shards_isolated(w, binary, engine, prop, shards=NCPU, timeout=3600, stall=25, solo_stall=60, extra_args=()):
+    """Crash-isolated children; a child that dies or stalls is attributed to the case it
+    was working on (progress file), that case is re-run alone, and the shard
+    continues without it. Returns (reports, violations, inconclusive)."""
+    inconclusive = {}
+
+    def shard_job(i):
+        skip = []
+        viol = []
+        for attempt in range(6):
+            args = list(extra_args) + (['-arg', 'skip=' + ';'.join(skip)] if skip else [])
+            rep, crash = run_isolated(w, binary, engine, i, shards, args, timeout, 'a%d' % attempt, stall=stall)
+            if rep is not None:
+                return rep, viol
+            pr = crash['progress']
+            if not pr or pr[0] == -1:
+                raise Broken('%s shard %d died without progress info (rc=%s)\n%s' % (engine, i, crash['rc'], crash['log']))
+            q = subprocess.run([binary, '-engine', 'listtypes', '-shard', '%d/%d' % (i, shards)], cwd=w.dir, env=GOENV, stdout=subprocess.PIPE)
+            types = json.loads(q.stdout)['types']
+            tname = types[pr[0]] if 0 <= pr[0] < len(types) else '?'
+            case = pr[1]
+            rep1, crash1 = run_isolated(w, binary, engine, 0, 1, ['-types', '^' + re.escape(tname) + '$', '-arg', 'only=%d' % case], 900, 'solo%d' % i, stall=solo_stall)
+            if rep1 is None:
+                kind = 'hang' if crash1['timed_out'] else 'fatal'
+                viol.append(dict(prop=prop, key='%s/%s' % (engine, kind), type=tname,
+                                 detail='isolated child %s on case %d of type %s (exit %s):\n%s' % ('made no progress for %d s on a single case' % solo_stall if kind == 'hang' else 'died', case, tname, crash1['rc'], crash1['log'][:1500]),
+                                 replay=dict(engine=engine, type=tname, seed=w.seed, index=case)))
+                return None, viol  # one confirmed fatal/hang decides the run; do not spend the budget on more
+            else:
+                inconclusive['child-died-but-case-passes-alone'] = inconclusive.get('child-died-but-case-passes-alone', 0) + 1
+            skip.append('%s:%d' % (tname, case))
+        raise Broken('%s shard %d: more than 6 crashing cases' % (engine, i))
+
+    with cf.ThreadPoolExecutor(max_workers=shards) as ex:
+        res = list(ex.map(shard_job, range(shards)))
+    reps = [r for r, _ in res if r is not None]
+    viol = []
+    for _, v in res:
+        viol += v
+    return reps, viol, inconclusive
+
+
 def check_total(prop, tier, seed, repo, keep):
-    """C06: crash-isolated children; a child that dies or hangs is attributed to the
-    input it was working on (progress file), the case is re-run alone, and the
-    shard continues without it."""
+    """C06: hostile inputs in crash-isolated children + depth probes."""
     t0 = time.time()
     with Work(prop, repo, tier, seed, keep) as w:
         bins = w.prepare_harness(fresh=True)
-        shards = NCPU
-        tmo = 900 if tier == 'quick' else 7200
-        extra_viol = []
-        inconclusive = {}
-
-        def shard_job(i):
-            skip = []
-            viol = []
-            for attempt in range(6):
-                args = ['-arg', 'skip=' + ';'.join(skip)] if skip else []
-                rep, crash = run_isolated(w, bins['plain'], 'total', i, shards, args, tmo, 'a%d' % attempt)
-                if rep is not None:
-                    return rep, viol
-                pr = crash['progress']
-                if not pr or pr[0] == -1:
-                    raise Broken('total shard %d died without progress info (rc=%s)\n%s' % (i, crash['rc'], crash['log']))
-                # which type? the child lists types by shard order: ask it
-                q = subprocess.run([bins['plain'], '-engine', 'listtypes', '-shard', '%d/%d' % (i, shards)], cwd=w.dir, env=GOENV, stdout=subprocess.PIPE)
-                types = json.loads(q.stdout)['types']
-                tname = types[pr[0]] if 0 <= pr[0] < len(types) else '?'
-                case = pr[1]
-                # re-run the single case alone with a generous deadline
-                rep1, crash1 = run_isolated(w, bins['plain'], 'total', 0, 1, ['-types', '^' + re.escape(tname) + '$', '-arg', 'only=%d' % case], 600, 'solo%d' % i, stall=60)
-                if rep1 is None:
-                    kind = 'hang' if crash1['timed_out'] else 'fatal'
-                    viol.append(dict(prop='C06', key='total/%s' % kind, type=tname,
-                                     detail='isolated child %s on case %d of type %s (exit %s):\n%s' % ('made no progress for 60 s on a single small input' if kind == 'hang' else 'died', case, tname, crash1['rc'], crash1['log'][:1500]),
-                                     replay=dict(engine='total', type=tname, seed=seed, index=case)))
-                    return None, viol  # one confirmed fatal/hang decides the run; do not spend the budget on more
-                else:
-                    inconclusive['child-died-but-case-passes-alone'] = inconclusive.get('child-died-but-case-passes-alone', 0) + 1
-                skip.append('%s:%d' % (tname, case))
-            raise Broken('total shard %d: more than 6 crashing cases' % i)
-
-        with cf.ThreadPoolExecutor(max_workers=shards) as ex:
-            res = list(ex.map(shard_job, range(shards)))
-        reps = [r for r, _ in res if r is not None]
-        for _, v in res:
-            extra_viol += v
+        reps, extra_viol, inconclusive = run_shards_isolated(w, bins['plain'], 'total', 'C06', timeout=900 if tier == 'quick' else 7200)
         # depth probes (shared children; the deepest probe alone in its own children)
         dreps = []
         for depths, tag in (('100;5000;11000;20000;100000', 'd1'), ('1000000', 'd2')):
@@ -580,6 +587,22 @@ def check_total(prop, tier, seed, repo, keep):
         return finish(prop, tier, seed, t0, merged, RULES[prop], ASSUME_C06, 2000, 1000, extra=gen_summary(w))
 
 
+def check_isolated_engine(prop, tier, seed, repo, keep):
+    """Engines whose subject may not terminate (C18): isolated children with a progress watchdog."""
+    t0 = time.time()
+    cfg = PROP[prop]
+    with Work(prop, repo, tier, seed, keep) as w:
+        bins = w.prepare_harness(fresh=cfg.get('fresh', True))
+        reps, viol, inc = run_shards_isolated(w, bins['plain'], cfg['engines'][0], prop, stall=150, solo_stall=300)
+        merged = merge_reports(reps, prop)
+        merged['violations'] += viol
+        merged['n_violations'] += len(viol)
+        for k, v in inc.items():
+            merged['inconclusive'][k] = merged['inconclusive'].get(k, 0) + v
+        fl = FLOORS[prop]
+        return finish(prop, tier, seed, t0, merged, RULES[prop], ASSUME, fl[0], fl[1], extra=gen_summary(w))
+
+
 ASSUME_C06 = [
     'termination is a watchdog judgement: a child that exceeds its generous deadline is re-run alone on the single input before a hang is reported',
     'allocation bound: len(input)*(largest reachable struct size+512)+1MiB per call, measured with runtime/metrics /gc/heap/allocs:bytes',
@@ -599,6 +622,7 @@ CHECKS = {
     'C01': check_engine, 'C02': check_engine, 'C04': check_engine, 'C05': check_engine,
     'C03': check_engine, 'C14': check_engine,
     'C06': check_total, 'C07': check_engine,
+    'C15': check_engine, 'C16': check_engine, 'C17': check_engine, 'C18': check_isolated_engine,
 }
 
 
